@@ -188,7 +188,11 @@ def save_performance_midi(
                 )
             )
 
-        for n in performed_part.notes:
+        # emit the notes in order of time, so that inside one tick the note_off
+        # of a note precedes the note_on of a later note with the same pitch
+        for n in sorted(
+            performed_part.notes, key=lambda n: (n["note_on"], n["note_off"])
+        ):
             track = n.get("track", 0)
             ch = n.get("channel", 1)
             t_on = int(np.round(10**6 * ppq * n["note_on"] / mpq))
